@@ -144,7 +144,7 @@ Definition skel_call (fixed : bool) (c : call) : skel :=
   | CCat ss d => skel_cat ss d
   | CStack ss d => skel_stack ss d
   | CReduce RSum s ds k => skel_sum_dim s ds k
-  | CReduce RAmax _ _ k => skel_amax k
+  | CReduce RAmax _ _ k => skel_amax fixed k
   | CReduce RMean s _ k => skel_mean_dim s k
   | CSelect _ d _ i => skel_select d i
   | CSlice _ d _ a b st => skel_slice d a b st
